@@ -40,7 +40,7 @@ PROP = dict(
         "fee rates are measured against the BIP-141 upper-bound weight (per-witness-type bounds published by package input, one change output of the delivery script), which is how lnd defines the rate of a sweep; the serialized transaction can be lighter (shorter signatures, no change output)",
         "when the change would be dust it is, as documented in prepareSweepTx, added to the fee: for a transaction without change output the fee-rate bound is relaxed by dust_limit(change script)-1 sat (fee <= budget is still enforced exactly)",
         "a block beat is delivered by calling TxPublisher.processRecords after storing the height and waiting on the publisher's wait group (what monitor() does per beat); chainio.BeatConsumer plumbing is not exercised",
-        "no AuxSweeper (no extra outputs / extra budget), no unconfirmed-parent (CPFP) inputs, signatures are fixed-size dummies (witness content is not validated, only its presence)",
+        "no AuxSweeper (no extra outputs / extra budget), half of the anchor inputs carry an unconfirmed parent (CPFP, fee and weight of the commitment) as contractcourt sets it - the budget, maximum-rate and reported-rate bounds speak about the sweep transaction itself, signatures are fixed-size dummies (witness content is not validated, only its presence)",
         "required outputs handed directly to the publisher are not dust (the aggregator filters them; that filter is checked in part 3)",
         "known findings C18:start-above-ceiling and C18:budget-rate-rounded-up are excluded by construction while listed as known",
         "sweeper part: the collector goroutine is not started; the harness calls the handlers its select loop calls (handleNewInput / handleUpdateReq / handleInputSpent / handleBumpEvent / beat body) followed by updateSweeperInputs, reading spend details and bump results from the sweeper's own channels (monitorSpend and monitorFeeBumpResult goroutines are the real ones); a block reaches the sweeper before the publisher (server.registerBlockConsumers order)",
